@@ -22,8 +22,12 @@ OpenersX == { V(4, 3), V(3, 3), V(1, 3), V(4, 2), B("bad", 4, 3), B("stall", 4, 
 (* behaviour generation: every class of opener the driver can build *)
 BadKinds == {"wrongkey", "random", "flipsalt", "fliplen", "fliptag", "short", "stall"}
 ShapesG  == ShapesQ \cup ShapesX
-OpenersG == { V(c, s) : c \in 1..4, s \in 1..3 }
-            \cup { B(k, p[1], p[2]) : k \in BadKinds, p \in {<<1, 1>>, <<2, 1>>, <<3, 2>>, <<4, 3>>} }
+OpenersG == { V(1, 1), V(2, 1), V(3, 2), V(4, 2), V(4, 3), V(3, 3), V(2, 3), V(1, 3), V(1, 2), V(2, 2),
+              B("wrongkey", 1, 1), B("random", 2, 1), B("flipsalt", 3, 2), B("fliplen", 4, 3), B("fliptag", 1, 1),
+              B("fliptag", 4, 2), B("flipsalt", 2, 3), B("fliplen", 3, 3), B("short", 3, 2), B("short", 4, 3),
+              B("stall", 1, 1) }
 \* MRU / last-client-IP histories: only keys that are in the lists, many lookups
-OpenersH == { V(1, 1), V(2, 1), V(3, 2), V(4, 2), V(4, 3), V(3, 3), V(2, 3) }
+ShapesH  == { << K(1, 1, 1), K(2, 2, 1), K(3, 3, 2), K(4, 1, 1) >>, << K(6, 4, 3), K(7, 3, 3), K(8, 2, 3), K(9, 4, 3) >>,
+              << K(1, 4, 3), K(5, 3, 2), K(2, 2, 1) >> }
+OpenersH == { V(1, 1), V(2, 1), V(3, 2), V(4, 3), V(3, 3), V(2, 3) }
 ===============================================================================
